@@ -153,12 +153,40 @@ def gen_case(rng, kind=None, strided=False):
     return dict(kind=kind or rng.choice(["old", "new"]), text=text, offset=offset, ops=ops, feats=feats)
 
 
+def _gff_db(case):
+    """the case's features written as GFF3 (multi-row features in ascending or DESCENDING coordinate order) and
+    loaded block-wise (`lines_per_block`), so that one ID's rows straddle block boundaries"""
+    import shutil
+    import tempfile
+    from pathlib import Path
+
+    from cogent3.core.annotation_db import load_annotations
+
+    g = case["gff"]
+    lines = ["##gff-version 3"]
+    for f in case["feats"]:
+        spans = sorted(f["spans"], reverse=g["order"] == "desc")
+        for a, b in spans:
+            lines.append("\t".join(["s", "src", f["biotype"], str(a + 1), str(b), ".", f["strand"], ".", f"ID={f['name']}"]))
+    lines.append("\t".join(["other", "src", "gene", "1", str(len(case["text"])), ".", "+", ".", "ID=alien"]))
+    d = Path(tempfile.mkdtemp(prefix="verif_c04_gff_"))
+    try:
+        p = d / "f.gff3"
+        p.write_text("\n".join(lines) + "\n")
+        return load_annotations(path=p, lines_per_block=g["lpb"])
+    finally:
+        shutil.rmtree(d, ignore_errors=True)
+
+
 def build(case):
     seq = mk_seq(case["kind"], case["text"], case["offset"])
-    for f in case["feats"]:
-        seq.annotation_db.add_feature(seqid="s", biotype=f["biotype"], name=f["name"], spans=[tuple(s) for s in f["spans"]], strand=f["strand"])
-    # a feature on another sequence id must never be returned
-    seq.annotation_db.add_feature(seqid="other", biotype="gene", name="alien", spans=[(0, len(case["text"]))], strand="+")
+    if case.get("gff"):
+        seq.replace_annotation_db(_gff_db(case), check=False)
+    else:
+        for f in case["feats"]:
+            seq.annotation_db.add_feature(seqid="s", biotype=f["biotype"], name=f["name"], spans=[tuple(s) for s in f["spans"]], strand=f["strand"])
+        # a feature on another sequence id must never be returned
+        seq.annotation_db.add_feature(seqid="other", biotype="gene", name="alien", spans=[(0, len(case["text"]))], strand="+")
     state = (case["offset"], case["offset"] + len(case["text"]), False)
     for op in case["ops"]:
         seq = apply_op(seq, op)
@@ -485,7 +513,16 @@ def gen_aln_hist_case(rng):
             n = (n if y is None else y if y >= 0 else n + y) - x
     if rng.random() < 0.12:
         ops = ops[1:]
-    return dict(rows=rows, feats=feats, aln_feats=aln_feats, ops=ops)
+    # deepcopy() / deepcopy(sliced=False) / copy() at any position of the chain, preferably right after an rc
+    copies = [["deepcopy"], ["deepcopy", False], ["copy"]]
+    out_ops = []
+    for op in ops:
+        out_ops.append(op)
+        if (op[0] == "rc" and rng.random() < 0.6) or rng.random() < 0.15:
+            out_ops.append(rng.choice(copies))
+    if rng.random() < 0.15:
+        out_ops.insert(0, rng.choice(copies))
+    return dict(rows=rows, feats=feats, aln_feats=aln_feats, ops=out_ops)
 
 
 def build_aln_hist(case):
@@ -502,6 +539,10 @@ def build_aln_hist(case):
         if op[0] == "rc":
             aln = aln.rc()
             state = (state[0], state[1], not state[2])
+        elif op[0] == "deepcopy":
+            aln = aln.deepcopy() if len(op) == 1 else aln.deepcopy(sliced=op[1])
+        elif op[0] == "copy":
+            aln = aln.copy()
         else:
             aln = aln[op[1] : op[2]]
             A, B, rev = state
@@ -875,6 +916,88 @@ def run_degap_case(case, out=None):
 
 
 # --------------------------------------------------------------------------
+# sequence collections (old and new style): rc / deepcopy / copy chains, features on every sequence
+# --------------------------------------------------------------------------
+def gen_coll_case(rng):
+    seqs, feats = {}, []
+    for name in ("x", "y", "z"):
+        n = rng.randint(6, 14)
+        seqs[name] = "".join(rng.choice("ACGT") for _ in range(n))
+        for i in range(rng.randint(1, 2)):
+            k = rng.choice([1, 1, 2])
+            pts = sorted(rng.sample(range(0, n + 1), 2 * k))
+            feats.append(dict(seqid=name, name=f"{name}{i}", strand=rng.choice(["+", "-"]),
+                              spans=[[pts[2 * j], pts[2 * j + 1]] for j in range(k)]))
+    ops = []
+    for _ in range(rng.randint(1, 4)):
+        op = rng.choice([["rc"], ["rc"], ["deepcopy"], ["deepcopy", False], ["copy"]])
+        ops.append(op)
+        if op[0] == "rc" and rng.random() < 0.6:
+            ops.append(rng.choice([["deepcopy"], ["deepcopy", False], ["copy"]]))
+    return dict(kind=rng.choice(["old", "new"]), seqs=seqs, feats=feats, ops=ops)
+
+
+def run_coll_case(case, out=None):
+    fails = []
+    inp = dict(coll_case=case)
+    try:
+        if case["kind"] == "old":
+            import cogent3
+
+            coll = cogent3.make_unaligned_seqs(case["seqs"], moltype="dna")
+        else:
+            from cogent3.core import new_alignment
+
+            coll = new_alignment.make_unaligned_seqs(case["seqs"], moltype="dna")
+        if coll.annotation_db is None:
+            from cogent3.core.annotation_db import BasicAnnotationDb
+
+            coll.annotation_db = BasicAnnotationDb()
+        for f in case["feats"]:
+            coll.annotation_db.add_feature(seqid=f["seqid"], biotype="gene", name=f["name"], spans=[tuple(x) for x in f["spans"]], strand=f["strand"])
+        done = []
+        for op in case["ops"]:
+            if op[0] == "rc":
+                coll = coll.rc()
+            elif op[0] == "deepcopy":
+                if not hasattr(coll, "deepcopy"):
+                    continue
+                coll = coll.deepcopy() if len(op) == 1 else coll.deepcopy(sliced=op[1])
+            else:
+                if not hasattr(coll, "copy"):
+                    continue
+                coll = coll.copy()
+            done.append(op[0])
+    except Exception as e:  # noqa: BLE001
+        return [("building the collection / its history raised", inp, "collection", f"{type(e).__name__}: {e}", f"coll:{case['kind']}:build:{type(e).__name__}")]
+    hist = "+".join(done) or "none"
+    for name, text in case["seqs"].items():
+        specs = [f for f in case["feats"] if f["seqid"] == name]
+        want = {}
+        for f in specs:
+            w = "".join(text[a:b] for a, b in sorted(f["spans"]))
+            want[f["name"]] = rc(w) if f["strand"] == "-" else w
+        try:
+            got = {f.name: str(f.get_slice()) for f in coll.get_features(seqid=name, allow_partial=True)}
+        except ValueError as e:
+            if "cannot set offset" in str(e) and case["kind"] == "new":
+                continue
+            got = f"raised ValueError: {e}"
+        except Exception as e:  # noqa: BLE001
+            got = f"raised {type(e).__name__}: {e}"
+        if out is not None:
+            out["evaluations"] += 1
+            bump(out, "coll_history", f"{case['kind']}:{hist}"[:40])
+            out["nontrivial"].add(("coll", case["kind"], json.dumps(case["ops"]), name, json.dumps(case["seqs"])[:60]))
+        if got != want:
+            after_rc_copy = any(a == "rc" and b in ("deepcopy", "copy") for a, b in zip(done, done[1:]))
+            fails.append(("after the collection's history the features of a sequence denote other residues (or are gone)",
+                          dict(inp, seqid=name), want, got,
+                          f"coll:{case['kind']}:{'copy-after-rc' if after_rc_copy else 'other'}:{'missing' if isinstance(got, dict) and not got else 'wrong'}"))
+    return fails
+
+
+# --------------------------------------------------------------------------
 # a feature overhanging the view on one or both sides: the lost spans must add up
 # --------------------------------------------------------------------------
 def run_overhang_case(case, out=None):
@@ -938,6 +1061,10 @@ def spec_check(ctx, budget):
     n = 120 * budget
     for i in range(n):
         case = gen_case(rng)
+        if i % 3 == 2:
+            # the db comes from GFF text loaded block-wise (rows of one ID in descending order across blocks)
+            case["gff"] = dict(order=rng.choice(["desc", "desc", "asc"]), lpb=rng.choice([1, 2, 3, 4]))
+            bump(out, "db_source", f"gff:{case['gff']['order']}:lpb={case['gff']['lpb']}")
         bump(out, "impl", case["kind"])
         bump(out, "history_len", len(case["ops"]))
         for op in case["ops"]:
@@ -959,6 +1086,9 @@ def spec_check(ctx, budget):
         for op in case["ops"]:
             bump(out, "aln_op", op[0])
         for what, inp, want, got, sig in run_aln_hist_case(case, out):
+            add_failure(out, "spec", what, inp, want, got, sig=sig)
+    for i in range(40 * budget):
+        for what, inp, want, got, sig in run_coll_case(gen_coll_case(rng), out):
             add_failure(out, "spec", what, inp, want, got, sig=sig)
     # every combination of left / right overhang 0..3, forward and rc'd views, old and new sequences
     for kind in ("old", "new"):
@@ -997,22 +1127,6 @@ def _parent_text(seq):
         return sv.alphabet.from_indices(raw)  # new-style views hold an index array
     except Exception:  # noqa: BLE001
         return str(raw)
-
-
-def _single_lost(spans):
-    """the model's map without the lost spans `_spans_from_locations` adds: make_feature's own lost spans are only
-    the first (`pre`) and the last (`post`) entry, every INTERIOR lost span comes from a span whose upper end was
-    not clamped (the both-sides-overhang branch)"""
-    return [x for i, x in enumerate(spans) if x[0] != "lost" or i in (0, len(spans) - 1)]
-
-
-def _dup_lost_only(model, real):
-    """True iff `real` is the model's feature map with the duplicated lost span of the both-sides-overhang branch
-    (open finding C04-overhang-both-sides-right-lost-span-twice) emitted once: a repaired tree, not a broken tie"""
-    if not isinstance(model, dict) or not isinstance(real, dict) or "spans" not in model or "spans" not in real:
-        return False
-    single = _single_lost(model["spans"])
-    return single != model["spans"] and real.get("spans") == single and real.get("reversed") == model.get("reversed")
 
 
 def _real_feature(seq, rec):
@@ -1157,6 +1271,32 @@ def correspondence(ctx):
                         resid = f"raised {type(e).__name__}: {e}"
                 reqs.append(("feature_any", dict(view=vj, minus=f["strand"] == "-", spans=f["spans"])))
                 expect.append(("feature_any", dict(case=case, feature=f), real, (resid, case)))
+    # (h) what add_feature on a view writes to the db vs addFeatureRecord
+    for i in range(ctx.budget(150, 1500)):
+        import random as _random
+
+        acase = gen_added_case(rng)
+        try:
+            root = mk_seq(acase["kind"], acase["text"], acase["offset"])
+            v = root
+            for op in acase["ops"]:
+                v = apply_op(v, op)
+        except Exception:  # noqa: BLE001
+            continue
+        L = len(v)
+        if L < 3 or root.annotation_db is not v.annotation_db:
+            continue
+        r_ = _random.Random(acase["seed"])
+        pts = sorted(r_.sample(range(0, L + 1), 2 * acase["k"]))
+        spans = [[pts[2 * j], pts[2 * j + 1]] for j in range(acase["k"])]
+        try:
+            v.add_feature(biotype="gene", name="added", spans=[tuple(x) for x in spans], strand=acase["strand"])
+            rec = list(root.annotation_db.get_features_matching(name="added"))[0]
+            real = dict(spans=sorted([int(a), int(b)] for a, b in rec["spans"]), minus=rec["strand"] == "-")
+        except Exception as e:  # noqa: BLE001
+            real = {"err": type(e).__name__}
+        reqs.append(("addfeature", dict(view=view_json(v), spans=spans, minus=acase["strand"] == "-")))
+        expect.append(("addfeature", dict(added_case=acase, spans=spans), real, None))
     # (d) projection of sequence features onto alignment columns (Aligned.make_feature) vs FMap.project
     def fm_json(m):
         return dict(pl=int(m.parent_length), spans=[["l", int(x.length)] if x.lost else ["s", int(x.start), int(x.end), bool(x.reverse)] for x in m.spans])
@@ -1265,14 +1405,7 @@ def correspondence(ctx):
             bump(out, "makefeature_class", inp["cls"])
             if "err" in real or "err" in rep:
                 bump(out, "makefeature_err", str(real.get("err")))
-            if rep != real and _dup_lost_only(rep, real):
-                bump(out, "overhang_both", "real-matches-spec-not-model")
-            elif rep != real and inp.get("cls") == "malformed" and rep == {"err": "ValueError"} and "spans" in real \
-                    and all(x[0] == "lost" or x[0] == x[1] for x in real["spans"]):
-                # malformed (reversed-pair) input straddling a view end: a tree that clamps both ends in the
-                # `min < 0 < max` branch turns the pair into a zero-length span instead of raising; same open finding
-                bump(out, "overhang_both", "malformed:zero-length-instead-of-ValueError")
-            elif rep != real:
+            if rep != real:
                 add_failure(out, "corr", "makeFeature model differs from Sequence.make_feature called directly", inp, rep, real, confirmed=False)
             elif "err" in real or any(x[0] == "lost" for x in real["spans"]) or real["reversed"]:
                 out["nontrivial"].add(("mf", inp.get("L", 0), json.dumps(inp["rel_spans"]), inp["strand"], json.dumps(inp.get("case", {}).get("ops"))))
@@ -1294,8 +1427,7 @@ def correspondence(ctx):
                 if len(inp["case"]["ops"]) > 1 or extra[2]:
                     out["nontrivial"].add(("hist", inp["case"]["text"], json.dumps(inp["case"]["ops"]), inp["feature"]["name"]))
         elif kind == "cliplocate":
-            if rep != real and not (isinstance(rep, list) and isinstance(real, list) and rep and rep[-1][0] == "lost"
-                                    and real == [x for x in rep if x[0] != "lost"]):
+            if rep != real:
                 add_failure(out, "corr", "clipLocate (clipSpan then locate) differs from the real map of one span", inp, rep, real, confirmed=False)
         elif kind == "project":
             got = None if "err" in rep else dict(pl=rep["pl"], spans=rep["spans"])
@@ -1303,6 +1435,11 @@ def correspondence(ctx):
                 add_failure(out, "corr", "FMap.project model differs from Aligned.make_feature", inp, got, real, confirmed=False)
             elif any(x[0] == "l" for x in real["spans"]) or len(real["spans"]) > 1:
                 out["nontrivial"].add(("proj", json.dumps(inp["aln_case"]["rows"]), inp["feature"]["name"]))
+        elif kind == "addfeature":
+            if rep != real:
+                add_failure(out, "corr", "addFeatureRecord model differs from the record add_feature wrote", inp, rep, real, confirmed=False)
+            else:
+                out["nontrivial"].add(("addf", json.dumps(inp["added_case"]["ops"]), inp["added_case"]["text"], str(inp["spans"])))
         elif kind == "copyview":
             if rep != real:
                 add_failure(out, "corr", "copyView model differs from the slice record of Sequence.copy()", inp, rep, real, confirmed=False)
@@ -1325,7 +1462,7 @@ def correspondence(ctx):
                 if real != rep:
                     add_failure(out, "corr", "featureOnView (strided) and make_feature disagree about raising", inp, rep, real, confirmed=False)
                 continue
-            if dict(spans=rep["spans"], reversed=rep["reversed"]) != real and not _dup_lost_only(rep, real):
+            if dict(spans=rep["spans"], reversed=rep["reversed"]) != real:
                 add_failure(out, "corr", "featureOnView (strided) differs from the feature map make_feature builds", inp, rep, real, confirmed=False)
                 continue
             txt = "".join(case["text"][p - case["offset"]] for p in rep["pos"])
@@ -1362,11 +1499,6 @@ def correspondence(ctx):
                     out["nontrivial"].add(("ferr", json.dumps(inp["case"]["ops"]), inp["case"]["text"], inp["feature"]["name"]))
                 continue
             if dict(spans=rep["spans"], reversed=rep["reversed"]) != real:
-                if _dup_lost_only(rep, real):
-                    # branch of the open finding C04-overhang-both-sides-right-lost-span-twice: the model mirrors the
-                    # duplicated lost span; a tree that emits it once is right (spec_check decides)
-                    bump(out, "overhang_both", "real-matches-spec-not-model")
-                    continue
                 add_failure(out, "corr", "featureOnView model differs from the feature map make_feature builds", inp, rep, real, confirmed=False)
                 continue
             # the model's slice positions must spell the residues the real get_slice returned
@@ -1397,6 +1529,8 @@ def _aln_hist_state(case):
     for op in case["ops"]:
         if op[0] == "rc":
             rev = not rev
+        elif op[0] in ("deepcopy", "copy"):
+            continue
         else:
             a, b, _ = slice(op[1], op[2], None).indices(B - A)
             b = max(a, b)
@@ -1437,6 +1571,17 @@ def match_finding(f, k):
         return False
     if r.get("unrebased") and not _unrebased_explains(f):
         return False
+    cc = (f.get("input") or {}).get("coll_case")
+    if r.get("coll_has_rc") and not (cc and any(op[0] == "rc" for op in cc["ops"])):
+        return False
+    if r.get("coll_minus_only"):
+        want, got = f.get("expected"), f.get("got")
+        if not (cc and isinstance(want, dict) and isinstance(got, dict) and set(want) == set(got)):
+            return False
+        spans = {x["name"]: x["spans"] for x in cc["feats"]}
+        # explained only if every wrong feature is a single span that does not start at 0 (the double offset)
+        if any(want[k] != got[k] and not (len(spans[k]) == 1 and spans[k][0][0] != 0) for k in want):
+            return False
     return True
 
 
@@ -1458,6 +1603,8 @@ def _other_case(w):
         return run_degap_case(w["degap_case"])
     if "overhang_case" in w:
         return run_overhang_case(w["overhang_case"])
+    if "coll_case" in w:
+        return run_coll_case(w["coll_case"])
     return None
 
 
